@@ -47,8 +47,13 @@ def classify_e2e(case):
         kind = "foreign-chain-not-forwarded"
     else:
         kind = "via-chain-seen-by-origin-wrong"
+    if case.get("nominate") and kind == "loop-not-refused" and own == "A":
+        # the first hop's own element sits in a Via field that the client nominated in Connection
+        return "e2e-loop-not-refused-connection-nominates-via"
     multi = "-multiline" if len(case.get("client_via") or []) > 1 else ""
-    return "e2e-route-%s-%s%s" % (route, kind, multi)
+    nom = "-connection-nominates-via" if case.get("nominate") else ""
+    conn = "-connect" if case.get("method") == "CONNECT" else ""
+    return "e2e-route-%s-%s%s%s%s" % (route, kind, multi, conn, nom)
 
 
 def run(ctx):
